@@ -42,7 +42,7 @@ def check(ctx):
     proved = ctx.prove("props/C19.v", ["proofs/PolyDomainFacts.v", "proofs/TermFacts.v", "proofs/TermGenCore.v"])
     ctx.build(["model/PolyDomain.vo"])
     rng = random.Random(ctx.seed + 19)
-    n = (150 if ctx.quick else 3000) * (1 if proved else 3)
+    n = (150 if ctx.quick else 20000) * (1 if proved else 3)
     exprs, cases, seen = [], [], set()
     hist = {}
     for k in range(n):
